@@ -167,10 +167,11 @@ class _ClipRule(cxx3.XRule):
 
     use_kinds = frozenset({"DeclRefExpr"})
 
-    def __init__(self, var_id, lhs, clip_arg_ids):
+    def __init__(self, var_id, lhs, clip_arg_ids, helpers=()):
         self.var = var_id
         self.lhs = lhs
         self.clip_arg_ids = clip_arg_ids
+        self.helpers = helpers          # names of TU functions that return their argument clipped to ±i_max
         self.bad_bounds = []
         self.clips = 0
 
@@ -189,6 +190,11 @@ class _ClipRule(cxx3.XRule):
                 return ("clipped", st[1])
             self.bad_bounds.append((node.get("line"), cir.text(rhs)))
             return st
+        r = cir.strip(rhs)
+        if r is not None and cir.is_call(r) and cir.callee(r) in self.helpers and \
+                any(_var_id(a) == self.var for a in cir.args(r)):
+            self.clips += 1
+            return ("clipped", st[1])
         if _reads_state(rhs, STATE_INTEGRAL):
             return ("raw", st[1])
         if any(_var_id(x) == self.var for x in cir.walk(rhs) if x.get("k") == "DeclRefExpr"):
@@ -221,6 +227,64 @@ class _ClipRule(cxx3.XRule):
             ctx.report(node, "the error integral is used without having been clipped to ±i_max on a path where i_max "
                              "may hold a value")
         return st
+
+
+class _HelperRule(cxx3.XRule):
+    """Is this function `x -> i_max ? mju_clip(x, -*i_max, *i_max) : x` on all paths?  state: i_max U(nknown)|T|F."""
+
+    def __init__(self, param_id):
+        self.p = param_id
+        self.ok = True
+        self.returns = 0
+
+    def initial(self, fn):
+        return "U"
+
+    def assign(self, st, node, ctx):
+        if node.get("k") == "BinaryOperator" and _var_id(cir.kids(node)[0]) == self.p:
+            self.ok = False
+        return st
+
+    def branch(self, st, cond, taken, ctx):
+        ch = cxx3.optional_test(cond)
+        if ch and ch[-1] == CFG_IMAX:
+            return "T" if taken else "F"
+        return st
+
+    def ret(self, st, node, ctx):
+        self.returns += 1
+        c = [x for x in cir.kids(node) if x is not None]
+        if not c:
+            self.ok = False
+            return
+        b = _is_clip_of(c[0], self.p)
+        if b is not None:
+            nlo = _neg_of(b[0])
+            if not (nlo is not None and _is_imax_deref(nlo) and _is_imax_deref(b[1])):
+                self.ok = False
+            return
+        if _var_id(c[0]) == self.p and st == "F":
+            return
+        self.ok = False
+
+
+def _clip_helpers(pid):
+    out = set()
+    for f in pid.fns():
+        ps = cir.params(f.node)
+        for p_ in ps:
+            if (p_.get("t") or "") not in ("mjtNum", "double"):
+                continue
+            if not any(cir.is_call(n) and cir.callee(n) == CLIP for n in cir.walk(f.node)):
+                continue
+            rule = _HelperRule(p_.get("id"))
+            try:
+                cxx3.xexplore(rule, pid.unit, f.node)
+            except AnalysisError:
+                continue
+            if rule.ok and rule.returns:
+                out.add(f.name)
+    return out
 
 
 def _integral_sites(fn):
@@ -286,9 +350,9 @@ def clip_rules(res, pid):
         sites = _integral_sites(f.node)
         if sites:
             sib.append((f, sites))
-    if len(sib) < 2:
-        raise AnalysisError(f"expected at least two Pid methods computing the error integral, found "
-                            f"{[f.key for f, _ in sib]} (anchor State::{STATE_INTEGRAL} moved)")
+    if not sib:
+        raise AnalysisError(f"no Pid method computes the error integral (anchor State::{STATE_INTEGRAL} moved)")
+    helpers = _clip_helpers(pid)
     sigs = {}
     for f, sites in sib:
         decls = cxx3.decl_nodes(f.node)
@@ -303,7 +367,14 @@ def clip_rules(res, pid):
                 clip_nodes.append(n)
                 for x in cir.walk(cir.args(n)[0]):
                     clip_arg_ids.add(id(x))
-        rule = _ClipRule(vid, _lhs_ids(f.node), clip_arg_ids)
+        for n in cir.walk(f.node):
+            if cir.is_call(n) and cir.callee(n) in helpers:
+                for a in cir.args(n):
+                    if _var_id(a) == vid:
+                        clip_nodes.append(n)
+                        for x in cir.walk(a):
+                            clip_arg_ids.add(id(x))
+        rule = _ClipRule(vid, _lhs_ids(f.node), clip_arg_ids, helpers)
         ctx = cxx3.xexplore(rule, pid.unit, f.node)
         c = f"{f.key}:integral-clip"
         if rule.bad_bounds:
@@ -332,6 +403,8 @@ def clip_rules(res, pid):
     ref = sigs[keys[0]]
     c = "~".join(keys) + ":integral"
     diffs = []
+    if len(keys) == 1:
+        res.extra["integral_single_implementation"] = keys[0]
     for k in keys[1:]:
         for part in ("expr", "guards", "clip"):
             if sigs[k][part] != ref[part]:
@@ -1021,6 +1094,22 @@ class _Prov:
                 out.add("val:" + str(r.get("n")))
             return out
         if cir.is_call(s):
+            # a helper of this TU: the provenance of what it returns (its parameters resolve through its call sites)
+            info = cxx3.callee_info(s)
+            tg = [g for g in (self.tu.resolver.targets(info, self.tu.rel, cxx3.call_nargs(s)) if info else [])
+                  if g.file == self.tu.rel]
+            if tg and len(seen) < 40:
+                out = set()
+                for g in tg:
+                    key = (id(g.node), "ret")
+                    if key in seen:
+                        continue
+                    for r in cir.walk(g.node):
+                        if r.get("k") == "ReturnStmt":
+                            c = [x for x in cir.kids(r) if x is not None]
+                            if c:
+                                out |= self.prov(c[0], g, seen | {key})
+                return out
             return {"val:" + cir.text(s)[:40]}
         return {"val:" + cir.text(s)[:40]}
 
@@ -1136,3 +1225,104 @@ def run(res, tier):
     res.assumptions = ["engine functions listed in ENGINE_EFFECTS have the stated effect on mjData",
                        "every caller of mj_initPlugin resets or overwrites mjData afterwards (read in engine_io.c, "
                        "user_model.cc)"]
+
+
+# ---------------------------------------------------------------------------------------------------------------
+# self-test (thorough tier)
+
+_ACTDOT_CLIP = ("      if (config_.i_max.has_value()) {\n        integral = mju_clip(integral, -*config_.i_max, *config_.i_max);\n"
+                "      }\n      d->act_dot[state_idx] = (integral - d->act[state_idx]) / m->opt.timestep;")
+_COMPUTE_CLIP = ("      if (config_.i_max.has_value()) {\n        integral =\n"
+                 "            mju_clip(integral, -*config_.i_max, *config_.i_max);\n      }\n")
+_GETSTATE_I = "  if (config_.i_gain) {\n    state.integral = d->act[state_idx++];\n  }\n"
+_GETSTATE_S = ("  if (config_.slew_max.has_value()) {\n    state.previous_ctrl = d->act[state_idx++];\n"
+               "    state.previous_ctrl_exists = d->time > 0;\n  }\n")
+_FIX = [
+    (PID_TU, "  for (int i = 0; i < m->nu; i++) {\n    if (m->actuator_plugin[i] == instance) {",
+     "  for (int i = 0; i < m->nactuator; i++) {\n    if (m->actuator_plugin[i] == instance) {"),
+    (PID_TU, "    ctrl = d->ctrl[actuator_idx];\n    // clamp ctrl\n    if (m->actuator_ctrllimited[actuator_idx]) {\n"
+             "      ctrl = mju_clip(ctrl, m->actuator_ctrlrange[2 * actuator_idx],\n"
+             "                      m->actuator_ctrlrange[2 * actuator_idx + 1]);",
+     "    int ctrladr = m->actuator_ctrladr[actuator_idx];\n    ctrl = d->ctrl[ctrladr];\n    // clamp ctrl\n"
+     "    if (m->actuator_ctrllimited[ctrladr]) {\n      ctrl = mju_clip(ctrl, m->actuator_ctrlrange[2 * ctrladr],\n"
+     "                      m->actuator_ctrlrange[2 * ctrladr + 1]);"),
+    (PID_TU, "    mjtNum error = ctrl - d->actuator_length[actuator_idx];\n\n    int state_idx",
+     "    mjtNum error = ctrl - d->actuator_length[m->actuator_outadr[actuator_idx]];\n\n    int state_idx"),
+    (PID_TU, "    mjtNum error = ctrl - d->actuator_length[actuator_idx];\n\n    mjtNum ctrl_dot",
+     "    int outadr = m->actuator_outadr[actuator_idx];\n    mjtNum error = ctrl - d->actuator_length[outadr];\n\n"
+     "    mjtNum ctrl_dot"),
+    (PID_TU, "ctrl_dot - d->actuator_velocity[actuator_idx];", "ctrl_dot - d->actuator_velocity[outadr];"),
+    (PID_TU, "    d->actuator_force[actuator_idx] = config_.p_gain", "    d->actuator_force[outadr] = config_.p_gain"),
+]
+
+MUTANTS = [
+    # ---- group A (must fire)
+    {"id": "drop-integral-clip-actdot", "group": "A", "expect": ("R-MUSTPASS", "Pid::ActDot:integral-clip"),
+     "edits": [(PID_TU, _ACTDOT_CLIP,
+                "      d->act_dot[state_idx] = (integral - d->act[state_idx]) / m->opt.timestep;")]},
+    {"id": "drop-slew-clip", "group": "A", "expect": ("R-MUSTPASS", "Pid::GetCtrl:slew-limit"),
+     "edits": [(PID_TU, "    ctrl = mju_clip(ctrl, ctrl_min, ctrl_max);\n", "")]},
+    {"id": "swap-state-slots", "group": "A", "expect": ("R-TABLE", "slot-sequence"),
+     "edits": [(PID_TU, _GETSTATE_I + _GETSTATE_S, _GETSTATE_S + _GETSTATE_I)]},
+    {"id": "cable-writes-qpos", "group": "A", "expect": ("R-WHO-WRITES", "cable:compute:mjData.qpos"),
+     "edits": [(CABLE_TU, "    // elastic forces\n    mjtNum quat[4] = {0};", "    d->qpos[0] = 0;\n    // elastic forces\n    mjtNum quat[4] = {0};")]},
+    # ---- group B (must fire)
+    {"id": "clip-bounds-wrong-compute", "group": "B", "expect": ("R-MUSTPASS", "Pid::Compute:integral-clip"),
+     "edits": [(PID_TU, "            mju_clip(integral, -*config_.i_max, *config_.i_max);",
+                "            mju_clip(integral, 0, *config_.i_max);")]},
+    {"id": "slew-bound-wrong", "group": "B", "expect": ("R-MUSTPASS", "Pid::GetCtrl:slew-limit"),
+     "edits": [(PID_TU, "mjtNum ctrl_max = state.previous_ctrl + *config_.slew_max * m->opt.timestep;",
+                "mjtNum ctrl_max = state.previous_ctrl + *config_.slew_max;")]},
+    {"id": "pid-compute-writes-act", "group": "B", "expect": ("R-WHO-WRITES", "pid:compute:mjData.act"),
+     "edits": [(PID_TU, "    mjtNum error_dot = ctrl_dot", "    d->act[0] = ctrl;\n    mjtNum error_dot = ctrl_dot")]},
+    {"id": "state-index-by-actuator-id", "group": "B", "expect": ("R-INDEXDIM", "Pid::ActDot:act_dot"),
+     "edits": [(PID_TU, "    int state_idx = m->actuator_actadr[actuator_idx];\n    if (config_.i_gain) {\n      mjtNum integral",
+                "    int state_idx = actuator_idx;\n    if (config_.i_gain) {\n      mjtNum integral")]},
+    # ---- group C (must fire)
+    {"id": "sibling-expression-differs", "group": "C", "expect": ("R-SIBLING", "integral"),
+     "edits": [(PID_TU, "      integral = state.integral + error * m->opt.timestep;", "      integral = state.integral + error;")]},
+    {"id": "slot-without-step", "group": "C", "expect": ("R-TABLE", "slot-step"),
+     "edits": [(PID_TU, "/ m->opt.timestep;\n      ++state_idx;\n    }\n    if (config_.slew_max.has_value()) {",
+                "/ m->opt.timestep;\n    }\n    if (config_.slew_max.has_value()) {")]},
+    {"id": "drop-integral-clip-compute", "group": "C", "expect": ("R-MUSTPASS", "Pid::Compute:integral-clip"),
+     "edits": [(PID_TU, _COMPUTE_CLIP, "")]},
+    {"id": "cable-visualize-writes-xpos", "group": "C", "expect": ("R-WHO-WRITES", "cable:visualize:mjData.xpos"),
+     "edits": [(CABLE_TU, "    // set geometry color based on stress norm\n", "    d->xpos[3*i] = 0;\n    // set geometry color based on stress norm\n")]},
+    # ---- group D (controls: behaviour-preserving)
+    {"id": "rename-integral-local", "group": "D", "expect": None,
+     "edits": [(PID_TU, "      mjtNum integral = state.integral + error * m->opt.timestep;\n" + _ACTDOT_CLIP,
+                "      mjtNum accum = state.integral + error * m->opt.timestep;\n"
+                "      if (config_.i_max.has_value()) {\n        accum = mju_clip(accum, -*config_.i_max, *config_.i_max);\n"
+                "      }\n      d->act_dot[state_idx] = (accum - d->act[state_idx]) / m->opt.timestep;")]},
+    {"id": "rename-slew-locals", "group": "D", "expect": None,
+     "edits": [(PID_TU, "ctrl_min", "lo", 5), (PID_TU, "ctrl_max", "hi", 5)]},
+    {"id": "reorder-independent", "group": "D", "expect": None,
+     "edits": [(PID_TU, "    mjtNum error = ctrl - d->actuator_length[actuator_idx];\n\n    int state_idx = m->actuator_actadr[actuator_idx];\n",
+                "    int state_idx = m->actuator_actadr[actuator_idx];\n\n    mjtNum error = ctrl - d->actuator_length[actuator_idx];\n")]},
+    {"id": "extract-clip-helper", "group": "F", "expect": None,
+     "edits": [(PID_TU, "void Pid::ActDot(const mjModel* m, mjData* d, int instance) const {",
+                "static mjtNum ClipIntegral(const PidConfig& config, mjtNum x) {\n"
+                "  if (config.i_max.has_value()) {\n    return mju_clip(x, -*config.i_max, *config.i_max);\n  }\n  return x;\n}\n\n"
+                "void Pid::ActDot(const mjModel* m, mjData* d, int instance) const {"),
+               (PID_TU, "      mjtNum integral = state.integral + error * m->opt.timestep;\n" + _ACTDOT_CLIP,
+                "      mjtNum integral = state.integral + error * m->opt.timestep;\n"
+                "      integral = ClipIntegral(config_, integral);\n"
+                "      d->act_dot[state_idx] = (integral - d->act[state_idx]) / m->opt.timestep;"),
+               (PID_TU, _COMPUTE_CLIP, "      integral = ClipIntegral(config_, integral);\n")]},
+    # ---- group E: the proposed fix of the index-space defect makes exactly those reports disappear
+    {"id": "fix-index-spaces", "group": "E", "expect": None, "fixes": [("R-INDEXDIM", "Pid::")], "edits": _FIX},
+]
+
+
+_FIX_HELPER = list(_FIX[:-1]) + [
+    (PID_TU, "    d->actuator_force[actuator_idx] = config_.p_gain", "    d->actuator_force[OutAdr(m, actuator_idx)] = config_.p_gain"),
+    (PID_TU, "void Pid::Compute(const mjModel* m, mjData* d, int instance) {",
+     "static int OutAdr(const mjModel* m, int id) {\n  return m->actuator_outadr[id];\n}\n\n"
+     "void Pid::Compute(const mjModel* m, mjData* d, int instance) {"),
+]
+MUTANTS.append({"id": "fix-index-spaces-through-helper", "group": "G", "expect": None,
+                "fixes": [("R-INDEXDIM", "Pid::")], "edits": _FIX_HELPER})
+
+
+def selftest(res):
+    cxx3.run_mutants("C51", res, MUTANTS, parts=("include", "src", "cmake", "CMakeLists.txt", "plugin"))
